@@ -231,11 +231,16 @@ PROPS["C10"] = dict(
                               "std::_Rb_tree rebalancing modelled as an unbalanced BST (models.c); recursive node destruction of std::set is skipped (leak)",
                               "allocations above 2^20 bytes raise std::bad_alloc"],
     assumptions=["payload size enumerated (small), header fields and payload bytes symbolic"],
-    outside="L1 coherence protocol over several clients (cache_over_ip), client encoder, key spreading over servers, sockets and timeouts",
+    outside="client encoder (tcp_cache_client), key spreading over several servers, trigger sets inside L1, sockets and timeouts",
     obligations=[
         dict(id="C10.a", harness="C10_tcpcache.cpp", entry="h_c10a_fetch_reply", ctors=False, cut=[STRING_REALLOC], noop=[RBTREE_ERASE],
              desc="session::fetch: 'uptodate' only for a revalidation request presenting the entry's current generation; otherwise exactly the backend's value/generation/deadline; miss => no_data (the primitive the L1 coherence rests on)",
              tiers=T(quick=dict(split=[[0, 2], [0, 2]], unwind=8, timeout=900, bounds="key length in {0,2} x value length in {0,2}; bytes, generations, flags, deadline symbolic"))),
+        dict(id="C10.c", harness="C10_l1.cpp", entry="h_c10c_l1_coherence", ctors=False, clang_flags=["-fno-inline"], nvec=0, replay="generated",
+             drop=["_ZN6cppcms4impl13cache_over_ip3tcpEv"], roots=["verif_tcp_object"], models=["stubs_c10c.c"], cut=[STRING_REALLOC], noop=[RBTREE_ERASE],
+             desc="cache_over_ip::fetch/store/clear with a local L1 against an abstract server (generation increases on every store; other nodes mutate the server directly): every fetch returns the value current on the server or misses -- never a stale L1 copy",
+             tiers=T(quick=dict(defs=dict(VERIF_K=3), split=[[0, 1]], unwind=8, unwindset={"verif_memset.0": 60}, timeout=1200, bounds="1 key, with and without L1, every history of 3 operations from {fetch, store, other-node store, other-node invalidate, clear}; values and initial generation symbolic"),
+                     thorough=dict(defs=dict(VERIF_K=4), split=[[0, 1]], unwind=8, unwindset={"verif_memset.0": 60}, timeout=3000, bounds="histories of 4 operations"))),
         dict(id="C10.b0", harness="C10_tcpcache.cpp", entry="h_c10b_store_validation", ctors=False, clang_flags=["-fno-inline"],
              drop=["19_M_replace_dispatchIN9__gnu_cxx17__normal_iteratorIPcSt6vectorIcS3_EEEEERS4_NS7_IPKcS4_EESF_T_SG_St12__false_type"],
              roots=["verif_passed_validation"], models=["stubs_c10.c"], noop=[RBTREE_ERASE],
